@@ -1105,7 +1105,7 @@ func (c *DefaultCtx) Params(key string, defaultValue ...string) string {
 			if len(c.values) <= i || len(c.values[i]) == 0 {
 				break
 			}
-			return c.values[i]
+			return c.app.getString(utils.UnsafeBytes(c.values[i]))
 		}
 	}
 	return defaultString("", defaultValue)
@@ -1188,7 +1188,7 @@ func (c *DefaultCtx) Scheme() string {
 
 // Protocol returns the HTTP protocol of request: HTTP/1.1 and HTTP/2.
 func (c *DefaultCtx) Protocol() string {
-	return utils.UnsafeString(c.fasthttp.Request.Header.Protocol())
+	return c.app.getString(c.fasthttp.Request.Header.Protocol())
 }
 
 // Query returns the query string parameter in the url.
